@@ -24,12 +24,16 @@ def _sv(x):
 
 
 class Jet:
-    __slots__ = ('a',)
+    """a[k] = coefficient of eps^k; p = number of leading coefficients that are exact (a division of two series that both
+    vanish to order v cancels eps^v and leaves the top v coefficients unknown: p drops by v; obligations may only be stated on
+    coefficients below p)"""
+    __slots__ = ('a', 'p')
 
-    def __init__(self, a):
+    def __init__(self, a, p=None):
         a = [_sv(x) for x in a]
         a = a + [SV(0.0)] * (ORD + 1 - len(a))
         self.a = a[:ORD + 1]
+        self.p = ORD + 1 if p is None else p
 
     @staticmethod
     def of(o):
@@ -54,11 +58,11 @@ class Jet:
         o = self._b(o)
         if o is None:
             return NotImplemented
-        return Jet([x + y for x, y in zip(self.a, o.a)])
+        return Jet([x + y for x, y in zip(self.a, o.a)], min(self.p, o.p))
     __radd__ = __add__
 
     def __neg__(self):
-        return Jet([-x for x in self.a])
+        return Jet([-x for x in self.a], self.p)
 
     def __pos__(self):
         return self
@@ -67,7 +71,7 @@ class Jet:
         o = self._b(o)
         if o is None:
             return NotImplemented
-        return Jet([x - y for x, y in zip(self.a, o.a)])
+        return Jet([x - y for x, y in zip(self.a, o.a)], min(self.p, o.p))
 
     def __rsub__(self, o):
         o = self._b(o)
@@ -86,7 +90,7 @@ class Jet:
             for j, y in enumerate(o.a):
                 if i + j <= ORD:
                     r[i + j] = r[i + j] + x * y
-        return Jet(r)
+        return Jet(r, min(self.p, o.p))
     __rmul__ = __mul__
 
     def valuation(self):
@@ -107,7 +111,7 @@ class Jet:
             for k in range(1, n + 1):
                 acc = acc + self.a[k] * b[n - k]
             b.append(-acc / a0)
-        return Jet(b)
+        return Jet(b, self.p)
 
     def __truediv__(self, o):
         o = self._b(o)
@@ -120,9 +124,15 @@ class Jet:
                 return Jet([float('nan')])
             return Jet([float('inf')]) if self > 0 else Jet([float('-inf')])
         if v > 0:
-            if self.valuation() is None:
+            w = self.valuation()
+            if w is None:
                 return Jet([0.0])
-            raise PathEnd('jet', 'division by a series of positive order (precision would be lost)')
+            if w < v:
+                raise PathEnd('jet', 'pole in eps')
+            # cancel eps^v: the quotient is exact only up to order p - v
+            num = Jet(self.a[v:] + [SV(0.0)] * v, self.p - v)
+            den = Jet(o.a[v:] + [SV(0.0)] * v, o.p - v)
+            return num * den.inv()
         return self * o.inv()
 
     def __rtruediv__(self, o):
@@ -164,7 +174,7 @@ class Jet:
             for k in range(1, n):
                 acc = acc - b[k] * b[n - k]
             b.append(acc / (2 * b[0]))
-        return Jet([SV(0.0)] * h + b)
+        return Jet([SV(0.0)] * h + b, self.p - h)
 
     def _trig(self):
         """(cos, sin) of the series"""
